@@ -22,6 +22,10 @@ pub enum Pos {
     Default,
     /// union / serial combination (random)
     Combo,
+    /// the same as a SEQUENCE component (a different width-selection routine)
+    ComboComponent,
+    /// ... and as a SEQUENCE OF element
+    ComboElement,
 }
 
 #[derive(Clone, Debug, PartialEq, Eq, Hash, serde::Serialize, serde::Deserialize)]
@@ -90,8 +94,8 @@ fn case_text(i: usize, c: &Case) -> String {
     let k = con_text(c);
     match c.pos {
         Pos::Assignment | Pos::Combo => format!("T{i} ::= INTEGER {k}"),
-        Pos::Component => format!("T{i} ::= SEQUENCE {{ f INTEGER {k} }}"),
-        Pos::Element => format!("T{i} ::= SEQUENCE OF INTEGER {k}"),
+        Pos::Component | Pos::ComboComponent => format!("T{i} ::= SEQUENCE {{ f INTEGER {k} }}"),
+        Pos::Element | Pos::ComboElement => format!("T{i} ::= SEQUENCE OF INTEGER {k}"),
         Pos::RefUnconstrained => format!("T{i} ::= Unc {k}"),
         Pos::RefWide => format!("T{i} ::= Wide {k}"),
         Pos::Value => format!("T{i} ::= INTEGER {k}\nv{i} T{i} ::= {}", c.x.unwrap()),
@@ -174,7 +178,7 @@ fn observe(m: &RModule, i: usize, c: &Case) -> Result<Obs, String> {
                 }
             }
         }
-        Pos::Component | Pos::Default => {
+        Pos::Component | Pos::Default | Pos::ComboComponent => {
             let s = m.find_struct(&t).ok_or_else(|| format!("{t} missing"))?;
             let f = s.fields.first().ok_or("no field")?;
             let ty = f.ty.trim_start_matches("Option<").trim_end_matches('>').to_string();
@@ -193,7 +197,7 @@ fn observe(m: &RModule, i: usize, c: &Case) -> Result<Obs, String> {
                 }
             }
         }
-        Pos::Element => {
+        Pos::Element | Pos::ComboElement => {
             let tok = payload_int(m, &format!("Anonymous{t}"), 0).ok_or_else(|| format!("Anonymous{t}: no integer payload"))?;
             o.types.push((format!("Anonymous{t} payload"), tok));
         }
@@ -344,10 +348,12 @@ fn combo_case(src: &mut Src, bs: &[i128]) -> Case {
         let a = bs[src.pick(bs.len())];
         let c = bs[src.pick(bs.len())];
         let (l, h) = if a <= c { (a, c) } else { (c, a) };
-        match src.weighted(&[6, 1, 1]) {
+        match src.weighted(&[6, 1, 1, 4]) {
             0 => (Some(l), Some(h)),
             1 => (None, Some(h)),
-            _ => (Some(l), None),
+            2 => (Some(l), None),
+            // a single value (written `a`, in whatever order the draws come)
+            _ => (Some(a), Some(a)),
         }
     };
     let nser = 1 + src.pick(3);
@@ -365,7 +371,7 @@ fn combo_case(src: &mut Src, bs: &[i128]) -> Case {
             cur = if union { cur.union(&s) } else { cur.intersect(&s) };
         }
         let e = src.chance(20);
-        let strs: Vec<String> = parts.iter().map(|(l, h)| format!("{}..{}", b(*l, true), b(*h, false))).collect();
+        let strs: Vec<String> = parts.iter().map(|(l, h)| if l.is_some() && l == h { b(*l, true) } else { format!("{}..{}", b(*l, true), b(*h, false)) }).collect();
         text.push_str(&format!("({}{})", strs.join(if union { " | " } else { " ^ " }), if e { ", ..." } else { "" }));
         set = set.intersect(&cur);
         if !e {
@@ -374,7 +380,7 @@ fn combo_case(src: &mut Src, bs: &[i128]) -> Case {
         ext = e;
     }
     Case {
-        pos: Pos::Combo,
+        pos: [Pos::Combo, Pos::ComboComponent, Pos::ComboElement][src.pick(3)],
         lo: None,
         hi: None,
         ext,
